@@ -63,7 +63,7 @@ class TLCResult:
         return self.rc == 0 and self.violation is None
 
 
-_ACTION_COV = re.compile(r"^<(\w+) line (\d+), col \d+ to line \d+, col \d+ of module (\w+)>: (\d+):(\d+)")
+_ACTION_COV = re.compile(r"^<(\w+) line (\d+), col \d+ to line \d+, col \d+ of module (\w+)(?: \([\d ]+\))?>: (\d+):(\d+)")
 
 
 def run_tlc(module, cfg, cwd, workers=4, simulate=None, depth=None, env=None, timeout=900,
@@ -152,7 +152,8 @@ def run_tlc(module, cfg, cwd, workers=4, simulate=None, depth=None, env=None, ti
             continue
         m = _ACTION_COV.match(line)
         if m:
-            r.coverage[m.group(1)] = (int(m.group(5)), int(m.group(4)))
+            prev = r.coverage.get(m.group(1), (0, 0))
+            r.coverage[m.group(1)] = (prev[0] + int(m.group(5)), prev[1] + int(m.group(4)))
             continue
         if in_trace:
             r.trace.append(line)
